@@ -1,4 +1,4 @@
-CONSTANTS MaxCalls = 4 MaxItems = 2 ServerAnswersOneway = FALSE
+CONSTANTS MaxCalls = 4 MaxItems = 2 ServerAnswersOneway = FALSE ClientMayAbandon = FALSE ClientDrainsAbandoned = FALSE
 SPECIFICATION Spec
 INVARIANTS Correspondence Complete
 CHECK_DEADLOCK FALSE
